@@ -712,11 +712,36 @@ func checkRootExact(c *core.Ctx, l *core.Ledger) {
 		var hit []core.Edge
 		core.Instrs(f, func(in ssa.Instruction) {
 			lk, ok := in.(*ssa.Lookup)
-			if !ok || !lk.CommaOk {
+			if !ok {
 				return
 			}
 			fld, _ := core.LoadedField(lk.X)
 			if fld == nil || !rootSet[fld.Name()] || notRoot[fld.Name()] {
+				return
+			}
+			if !lk.CommaOk {
+				// a set kept as map[K]bool in which only true is ever stored: the value is the membership
+				if b, isB := lk.Type().Underlying().(*types.Basic); !isB || b.Kind() != types.Bool || !onlyTrueStored(c, fld) {
+					return
+				}
+				var follow func(v ssa.Value, neg bool)
+				follow = func(v ssa.Value, neg bool) {
+					for _, r2 := range *v.Referrers() {
+						switch x := r2.(type) {
+						case *ssa.UnOp:
+							if x.Op == token.NOT {
+								follow(x, !neg)
+							}
+						case *ssa.If:
+							idx := 0
+							if neg {
+								idx = 1
+							}
+							hit = append(hit, core.Edge{From: x.Block(), To: x.Block().Succs[idx]})
+						}
+					}
+				}
+				follow(lk, false)
 				return
 			}
 			for _, rr := range *lk.Referrers() {
@@ -878,4 +903,28 @@ func checkGoTypeAnnotation(c *core.Ctx, l *core.Ledger) {
 	}
 	l.Check(len(consts) <= 1, "GOTYPE-AGREE", "same-constant", "", "all sites compare with the same constant", fmt.Sprintf("sites compare the annotation with different constants: %v", consts))
 	l.Floor("GOTYPE-AGREE", 3)
+}
+
+// onlyTrueStored: every MapUpdate into the given map-typed field in package gen stores the constant true.
+func onlyTrueStored(c *core.Ctx, fld *types.Var) bool {
+	ok, n := true, 0
+	for _, g := range c.AllFuncs("gen") {
+		if c.IsTestFile(g.Pos()) {
+			continue
+		}
+		core.Instrs(g, func(in ssa.Instruction) {
+			mu, isMU := in.(*ssa.MapUpdate)
+			if !isMU {
+				return
+			}
+			if f2, _ := core.LoadedField(mu.Map); f2 != fld {
+				return
+			}
+			n++
+			if k, isK := mu.Value.(*ssa.Const); !isK || k.Value == nil || k.Value.String() != "true" {
+				ok = false
+			}
+		})
+	}
+	return ok && n > 0
 }
